@@ -217,7 +217,14 @@ class Replayer:
 
 
 def stage_replay(ctx):
-    cfg = "MC_SighashReplay_q" if ctx.quick else "MC_SighashReplay_t"
+    if ctx.quick:
+        return replay_cfg(ctx, "MC_SighashReplay_q")
+    # Litecoin shares Bitcoin's checker class: a smaller product is enough to bind it
+    replay_cfg(ctx, "MC_SighashReplay_ltc", selftest=False)
+    return replay_cfg(ctx, "MC_SighashReplay_t")
+
+
+def replay_cfg(ctx, cfg, selftest=True):
     rp = Replayer(ctx)
     ctx.tlc("MC_SighashReplay", cfg, on_record=rp.feed, keep_records=False, timeout=3000)
     fails = rp.finish()
@@ -238,6 +245,8 @@ def stage_replay(ctx):
                  "pycoin %s/%s input %d of %d, %d outputs, hash type 0x%02x, scenario %d: %s via %s: spec demands %s, pycoin gave %s" % (
                      c["coin"], c["sv"], c["i"], c["n"], c["m"], c["ht"], c["sc"], f["what"], f["via"],
                      _fmt(f["expected"]), _fmt(f["got"])), f)
+    if not selftest:
+        return rp
     # binding self-test: corrupt the expectation of one case; the comparison must notice
     # (on a case pycoin passes; if pycoin passes none of the candidates there is nothing to corrupt)
     passing = [c for c in rp.cands if c["d"][0]["k"] != "b" and _run_case(rp.tab, c, {}) is None][:1]
@@ -583,7 +592,7 @@ def _trace_diagnosis(t, info):
 
 
 def stage_traces(ctx):
-    ntr = 150 if ctx.quick else 1000
+    ntr = 150 if ctx.quick else 800
     traces = record_traces(ctx.seed * 7919 + 4, ntr)
     nev = sum(len(t["ev"]) for t in traces)
     ctx.log("recorded %d traces (%d sighash requests) on random transactions" % (len(traces), nev))
